@@ -1,7 +1,7 @@
 #!/bin/bash
 # usage: verify_benign.sh <ID>...   -- confirm a behaviour-preserving refactoring (agents3/out/<ID>/patch.diff): applies, builds, pinned suite passes
 for ID in "$@"; do
-  SRC=/root/scratch/agents3/out/$ID; WT=/tmp/wt/benign_$ID
+  SRC=${BENIGN_SRC:-/root/scratch/agents3/out}/$ID; OUTNAME=${BENIGN_PREFIX:-}$ID; WT=/tmp/wt/benign_$ID
   export CARGO_NET_OFFLINE=true CARGO_TARGET_DIR=$WT/target
   git -C /repo worktree remove --force $WT >/dev/null 2>&1
   git -C /repo worktree add --detach $WT HEAD >/dev/null 2>&1 || { echo "$ID cannot create worktree"; continue; }
@@ -13,8 +13,8 @@ for ID in "$@"; do
   FAILED_NAMES=$(grep -E "^\s+FAIL " $WT/.suite.log | awk '{print $NF}' | sort -u | tr '\n' ' ')
   echo "$ID files: $(git diff --stat | tail -1) | $SUITE | failing: $FAILED_NAMES"
   case "$SUITE" in *"470 passed, 1 failed"*)
-    mkdir -p /verif/seeded/benign/$ID; cp $SRC/patch.diff /verif/seeded/benign/$ID/patch.diff; cp $SRC/notes.md /verif/seeded/benign/$ID/notes.md 2>/dev/null;;
+    mkdir -p /verif/seeded/benign/$OUTNAME; cp $SRC/patch.diff /verif/seeded/benign/$OUTNAME/patch.diff; cp $SRC/notes.md /verif/seeded/benign/$OUTNAME/notes.md 2>/dev/null;;
   esac
   cd /; git -C /repo worktree remove --force $WT >/dev/null 2>&1; rm -rf $WT
-  git -C /repo worktree remove --force /tmp/wt3/$ID >/dev/null 2>&1
+  git -C /repo worktree remove --force ${BENIGN_WT:-/tmp/wt3}/$ID >/dev/null 2>&1
 done
